@@ -72,6 +72,28 @@ pub fn generic_and_family_stats(
             check(&case, ctx);
         }
     }));
+    // three instantiations (one field): beyond the depth explored above in the quick tier
+    {
+        let slice: Vec<GenState> = three_inst_slice(!cf_only)
+            .into_iter()
+            .filter(|s| wf5_ok(s))
+            .filter(|s| {
+                let prog = s.program();
+                !cf_only || s.insts.iter().all(|a| coincidence(&prog.defs[G_D], a, &prog).is_ok())
+            })
+            .collect();
+        out.push(sweep(
+            "D-generic slice: one field x three instantiations in every order, the parameter or associated type three levels down x two and three instantiations, and definitions with three parameters (<= 2 fields, <= 2 instantiations)",
+            &slice,
+            Duration::from_secs(120),
+            |s| serde_json::json!({"program": s.program().to_source()}),
+            |s, ctx| {
+                let mut case = Case::new(RegSrc::Prog(s.program()), settings[0].1.clone(), "D-generic, three instantiations");
+                case.dedup = true;
+                check(&case, ctx);
+            },
+        ));
+    }
     let f = DFamily {
         max_members: 2,
         max_fields: 2,
